@@ -169,12 +169,6 @@ theorem cell_shape_invariant (div fft : Idx) (hd : 0 < div.1 ∧ 0 < div.2.1 ∧
 
 /-! ## T5 — `determineNK`: a requested grid `NK` that is a multiple of the given `NKFFT` is reproduced exactly -/
 
-theorem roundHE_int (n : Int) : roundHE (n : Rat) = n := by
-  unfold roundHE
-  have hfl : ((n : Rat).floor : Int) = n := by rw [floor_eq]; exact Int.floor_intCast n
-  simp only [hfl]
-  norm_num
-
 theorem determineNK_exact (d f : Idx) (hd : 0 < d.1 ∧ 0 < d.2.1 ∧ 0 < d.2.2) (hf : 0 < f.1 ∧ 0 < f.2.1 ∧ 0 < f.2.2) :
     determineNK (true, true, true) none (some f) (some (d.1 * f.1, d.2.1 * f.2.1, d.2.2 * f.2.2)) = some (d, f) ∧
     determineNK (true, true, true) (some d) (some f) none = some (d, f) := by
@@ -183,7 +177,7 @@ theorem determineNK_exact (d f : Idx) (hd : 0 < d.1 ∧ 0 < d.2.1 ∧ 0 < d.2.2)
     intro a b ha hb
     have hb' : (b : Rat) ≠ 0 := by exact_mod_cast hb.ne'
     have : ((a * b : Nat) : Rat) / (b : Rat) = ((a : Int) : Rat) := by push_cast; field_simp
-    simp only [this, roundHE_int, Int.toNat_natCast]
+    simp only [this, WB.C06.roundHE_int, Int.toNat_natCast]
     rw [if_neg (by omega)]
   have k1 := key d.1 f.1 hd.1 hf.1
   have k2 := key d.2.1 f.2.1 hd.2.1 hf.2.1
@@ -208,22 +202,8 @@ theorem symmetric_grid_star_on_grid (syms : List Sym) (div : Idx) (hd : 0 < div.
     (hs : symmetricGrid syms div = true) (s : Sym) (hsm : s ∈ syms) (p : Idx) :
     isInt ((s.apply (gridK div p)).x * div.1) = true ∧ isInt ((s.apply (gridK div p)).y * div.2.1) = true ∧
     isInt ((s.apply (gridK div p)).z * div.2.2) = true := by
-  unfold symmetricGrid at hs
-  rw [List.all_eq_true] at hs
-  have h := hs s hsm
-  simp only [Bool.and_eq_true, decide_eq_true_eq] at h
-  obtain ⟨⟨⟨⟨⟨⟨⟨⟨a11, a12⟩, a13⟩, a21⟩, a22⟩, a23⟩, a31⟩, a32⟩, a33⟩ := h
-  have hint : ∀ r : Rat, (∃ z : Int, r = z) → isInt r = true := by
-    rintro r ⟨z, rfl⟩; simp [isInt]
-  unfold Sym.apply gridK
-  simp only
-  refine ⟨hint _ ?_, hint _ ?_, hint _ ?_⟩
-  · exact comp_on_grid p.1 p.2.1 p.2.2 div.1 div.2.1 div.2.2 div.1 s.m11 s.m21 s.m31 s.sign (sign_pm s)
-      hd.1 hd.2.1 hd.2.2 a11 a21 a31
-  · exact comp_on_grid p.1 p.2.1 p.2.2 div.1 div.2.1 div.2.2 div.2.1 s.m12 s.m22 s.m32 s.sign (sign_pm s)
-      hd.1 hd.2.1 hd.2.2 a12 a22 a32
-  · exact comp_on_grid p.1 p.2.1 p.2.2 div.1 div.2.1 div.2.2 div.2.2 s.m13 s.m23 s.m33 s.sign (sign_pm s)
-      hd.1 hd.2.1 hd.2.2 a13 a23 a33
+  obtain ⟨a, b, c⟩ := symmetricGrid_onGrid syms div hd hs s hsm p
+  exact ⟨(isInt_iff _).mpr a, (isInt_iff _).mpr b, (isInt_iff _).mpr c⟩
 
 /-- 4-fold rotation about z: the total grid 6x6x1 of NKdiv=(3,2,1) x NKFFT=(2,3,1) is symmetric, neither factor is, the
     rule refuses the factorisation, and the image of K-grid point (1,0,0) is off the K-grid (2/3 of a step along y) -/
